@@ -43,7 +43,8 @@ def r01_1(ck, F):
             "loop back edge; `last` is is_empty() of the remainder of the buffer that was split (and `finish` for "
             "chunk streaming)",
             "any two-chunk message: `first` never cleared makes the receiver restart at chunk 2 (truncated message); a "
-            "wrong `last` completes early or never", floor=7)
+            "wrong `last` completes early or never", floor=5)
+    emit_api_coverage(ck, F)
     for path, b, bb, i, rv, site in _emit_sites(F):
         first = _op(b, rv, "first")
         last = _op(b, rv, "last")
@@ -123,7 +124,7 @@ def r01_1(ck, F):
 
 def r01_2(ck, F):
     ck.rule("R01.2", "the message buffer of each emit loop is consumed only by split_to (len / is_empty / clone are the "
-            "only other uses)", "bytes sent twice or skipped", floor=3)
+            "only other uses)", "bytes sent twice or skipped", floor=2)
     allowed = {"bytes::Bytes::len", "bytes::Bytes::is_empty", "bytes::Bytes::split_to", "std::clone::Clone::clone",
                "bytes::Bytes::clone"}
     for path, b in emit_bodies(F):
